@@ -9,6 +9,11 @@ CLAIMED = {
    text="Unbounded Coq theorems: for every list of valid slow/fast frames and every cutting of the byte stream into non-empty reads, successive reads of the model return exactly the payloads/kinds/flags and leave exactly the tail; short declared lengths are rejected with exactly the header consumed. The hand-written model (coq/Link.v, coq/Tpkt.v) is tied to /repo on every run by executing extracted model and real tpkt/x224 clients on the same generated chunked streams (debug and release builds) and by an independent reference-framing oracle on the implementation's outcomes.",
    design_ref="DESIGN.md section 6, C13",
    note="Trusted: Coq kernel (+vm_compute for two byte-level sweeps), extraction (ExtrOcamlBasic), the OCaml driver and Rust harness, std read_exact contract; model is hand-written and validated by correspondence, not generated."),
+ "C14": dict(
+   technique="Coq proof (induction over the write schedule) of model = RefFraming encoder + write_all contract; model tied to /repo by differential correspondence",
+   text="Unbounded Coq theorems: for every message and every schedule of short writes / zero-length acceptances / injected errors, the model either refuses an over-long message with nothing written, or puts exactly the reference frame on the stream and returns Ok, or returns an error having written a strict prefix while the schedule really contained a failing step; every progressing schedule delivers every byte; header length = bytes emitted; written frames deframe (C13) to the message. Model tied to /repo by running extracted model and real tpkt/x224 writers over a scheduled adversarial sink (debug + release) and by an independent Python reference of framing + write_all on the implementation's outcomes.",
+   design_ref="DESIGN.md section 6, C14",
+   note="Trusted: Coq kernel, extraction (ExtrOcamlBasic), OCaml driver, Rust harness, std write_all contract; the serialisation of the message itself (model/data.rs write) is covered by C18, here the message is an opaque byte block."),
 }
 
 NOT_YET = {}
